@@ -128,7 +128,9 @@ def check_from_chart_line(ctx: Ctx, r: Rule, cq: str) -> Optional[dict]:
                 if got is not None and got[0] == "ite":
                     c_, a_, b_ = got[1], got[2], got[3]
                     # try/except TypeError form:  (None if <raises T> else int(g))
-                    if c_[0] == "raises" and a_ == ("const", None) and match(INT(grp(g)), b_) is not None:
+                    # (`lower = None` before the try with a handler that does nothing leaves "what it was before", i.e. None, too)
+                    if c_[0] == "raises" and (a_ == ("const", None) or (len(a_) == 4 and a_[0] == "maybe" and a_[1] == c_[1] and a_[3] == ("const", None))) \
+                            and match(INT(grp(g)), b_) is not None:
                         tid = c_[1]
                         ti = s.trys.get(tid)
                         hn = [exc_name(h) for hs in (ti.handlers if ti else []) if hs is not None for h in hs]
